@@ -30,9 +30,16 @@ def run(tier, seed, replay=None):
         y = (z * z + 1.0).round(1e-14)                      # entries in [1, 2] ([1, 5] for the high-rank quotients)
         x = solverkit.rand_tt_float(rng, N, solverkit.ranks(rng, d, rng.choice([1, 2, 3, 4])), dt)
         form = rng.choice(["x/y", "x/y", "scalar/y", "elementwise_divide", "elementwise_divide", "x/scalar"])
+        cdt = dt
+        if not big and form != "x/scalar" and rng.random() < 0.3:      # single precision and complex operands (the divisor keeps its positive real entries)
+            cdt = rng.choice([torch.float32, torch.complex128])
+            y = torchtt.TT([c.to(cdt) for c in y.cores])
+            x = solverkit.rand_tt_float(rng, N, solverkit.ranks(rng, d, rng.choice([1, 2, 3])), torch.complex128 if cdt == torch.complex128 else torch.float64, cplx=cdt == torch.complex128)
+            x = torchtt.TT([c.to(cdt) for c in x.cores])
+            dist["dtype:" + str(cdt)] = dist.get("dtype:" + str(cdt), 0) + 1
         if big: form = "x/y" if i % 2 == 0 else "scalar/y"; dist["high-rank quotient"] = dist.get("high-rank quotient", 0) + 1
         sd = rng.randrange(1 << 30); torch.manual_seed(sd)
-        desc = {"form": form, "N": N, "rank_x": [int(r) for r in x.R], "rank_y": [int(r) for r in y.R], "torch_seed": sd}
+        desc = {"form": form, "N": N, "rank_x": [int(r) for r in x.R], "rank_y": [int(r) for r in y.R], "torch_seed": sd, "dtype": str(cdt)}
         dist[form] = dist.get(form, 0) + 1
         if i % 10 == 0 and len(samples) < 5: samples.append(desc)
         ops = {"x": x, "y": y}
@@ -56,13 +63,14 @@ def run(tier, seed, replay=None):
             if form == "x/y":
                 q = x / y; num = x.full(); tol = 1e-12
             elif form == "scalar/y":
-                s = rng.choice([1.0, 2.0, -3.0, 5]); q = s / y; num = torch.full(N, float(s), dtype=dt); tol = 1e-12
+                s = rng.choice([1.0, 2.0, -3.0, 5]); q = s / y; num = torch.full(N, float(s), dtype=cdt); tol = 1e-12
             else:
                 tol = rng.choice([1e-10, 1e-8, 1e-6, 1e-4])
                 prec = rng.choice([None, "c"])
                 if rng.random() < 0.4:
                     kind = rng.choice(["random", "zeros", "ones"])
                     guess = solverkit.rand_tt_float(rng, N, solverkit.ranks(rng, d, 2), dt) if kind == "random" else (torchtt.zeros(N, dtype=dt) if kind == "zeros" else torchtt.ones(N, dtype=dt))
+                    if cdt != dt: guess = torchtt.TT([c.to(cdt) for c in guess.cores])
                     ops["guess"] = guess; snaps["guess"] = history.Snap(guess); desc["guess"] = kind
                 desc.update(eps=tol, preconditioner=prec)
                 q = torchtt.elementwise_divide(x, y, nswp=50, eps=tol, starting_tensor=guess, preconditioner=prec)
@@ -74,12 +82,13 @@ def run(tier, seed, replay=None):
         if history.wf_failures(q) or [int(v) for v in q.N] != N or q.is_ttm:
             V.fail("%s: result has the wrong shape / is ill formed" % form, desc); continue
         res = float((q.full() * y.full() - num).norm() / max(1e-300, float(num.norm())))
+        if cdt == torch.float32: tol = max(tol, 1e-6)            # single precision cannot certify less
         if res > CONST * tol + 1e-12:
             V.fail("%s: q*y differs from the numerator by more than %g*tol" % (form, CONST), dict(desc, rel_residual=res, tol=tol, ranks=[int(r) for r in q.R]))
     nviol = V.finish()
     cov = proofcheck.coverage(PID, obl, evaluations=n, distinct_nontrivial=len(dist),
         rule=("x / y, scalar / y, elementwise_divide(x, y, ...) and x / scalar for y = 1 + z*z (entries in [1,2]) of order 2..5, mode sizes 1..10, ranks 1..4, tolerances 1e-10..1e-4, "
-              "preconditioner None/'c', starting tensors random / zeros / ones, random seeds; measured: ||q*y - x|| <= %g*tol ||x|| on the dense arrays, exactness of the scalar case "
+              "preconditioner None/'c', starting tensors random / zeros / ones, random seeds, float64 and (30%%) float32 / complex128 operands; measured: ||q*y - x|| <= %g*tol ||x|| on the dense arrays, exactness of the scalar case "
               "(and that the dividend can be used again), result shape / well-formedness, bitwise integrity of x, y and the starting tensor") % CONST,
         samples=samples, distribution=dist, known_findings_reproduced=V.known_hit,
         partial=["convergence of the AMEn division sweeps is an empirical contract: measured, not proved; the exact scalar case and the entrywise meaning of q*y are theorems"])
